@@ -815,11 +815,23 @@ func (a *fnA) checkSlices(c *Ctx, o boundOpts) {
 					q    Ineq
 					ok   bool
 				}{"high <= len", q, ok})
+				_, sliceOperand := x.X.Type().Underlying().(*types.Slice)
 				for _, g := range goals {
 					if g.q.E.isConst() && g.ok && g.q.E.K.Sign() >= 0 {
 						continue // trivially true (e.g. b[:])
 					}
 					proved := a.prove(b, nil, g.q, g.ok)
+					if !proved && g.name == "high <= len" && sliceOperand && x.Max == nil {
+						// a slice may be re-sliced up to its capacity
+						cp := a.capOf(x.X)
+						if q2, ok2 := leq(hi, cp); ok2 {
+							var extra []Ineq
+							if q3, ok3 := leq(ln, cp); ok3 {
+								extra = append(extra, q3)
+							}
+							proved = a.prove(b, extra, q2, ok2)
+						}
+					}
 					c.Oblige("B.slice", proved, x.Pos(), a.name, desc+" : "+g.name,
 						a.explain(proved, g.name, g.q), a.factsDump(proved))
 				}
